@@ -9,6 +9,64 @@ const BUF: usize = 4096;
 
 thread_local! {
     static INFLIGHT: UnsafeCell<([u8; BUF], usize)> = const { UnsafeCell::new(([0u8; BUF], 0)) };
+    static SLOT: std::cell::Cell<usize> = const { std::cell::Cell::new(usize::MAX) };
+}
+
+// per-thread progress slots read by the watchdog thread
+const NSLOTS: usize = 64;
+const SBUF: usize = 1024;
+struct Slot {
+    buf: UnsafeCell<[u8; SBUF]>,
+    len: std::sync::atomic::AtomicUsize,
+    stamp_ms: std::sync::atomic::AtomicU64,
+    busy: std::sync::atomic::AtomicBool,
+}
+unsafe impl Sync for Slot {}
+#[allow(clippy::declare_interior_mutable_const)]
+const EMPTY_SLOT: Slot = Slot { buf: UnsafeCell::new([0u8; SBUF]), len: std::sync::atomic::AtomicUsize::new(0), stamp_ms: std::sync::atomic::AtomicU64::new(0), busy: std::sync::atomic::AtomicBool::new(false) };
+static SLOTS: [Slot; NSLOTS] = [EMPTY_SLOT; NSLOTS];
+static NEXT_SLOT: std::sync::atomic::AtomicUsize = std::sync::atomic::AtomicUsize::new(0);
+
+fn now_ms() -> u64 {
+    use std::time::{SystemTime, UNIX_EPOCH};
+    SystemTime::now().duration_since(UNIX_EPOCH).map(|d| d.as_millis() as u64).unwrap_or(0)
+}
+
+/// The calling thread is idle (between cases): the watchdog ignores it.
+pub fn idle() {
+    let _ = SLOT.try_with(|s| {
+        if s.get() < NSLOTS {
+            SLOTS[s.get()].busy.store(false, Ordering::Relaxed);
+        }
+    });
+}
+
+/// Start a watchdog: if some thread stays on one case for more than `secs`, the process writes a
+/// crash record "hang" for that case and exits like a crash (a hang is then attributed and
+/// reproduced by the driver instead of blocking the whole check).
+pub fn start_watchdog(secs: u64) {
+    std::thread::spawn(move || loop {
+        std::thread::sleep(std::time::Duration::from_millis(500));
+        let now = now_ms();
+        for s in SLOTS.iter() {
+            if s.busy.load(Ordering::Relaxed) {
+                let t = s.stamp_ms.load(Ordering::Relaxed);
+                if t != 0 && now.saturating_sub(t) > secs * 1000 {
+                    unsafe {
+                        let fd = FD.load(Ordering::Relaxed);
+                        if fd >= 0 {
+                            let hdr = b"CRASH hang ";
+                            write(fd, hdr.as_ptr(), hdr.len());
+                            let n = s.len.load(Ordering::Relaxed).min(SBUF);
+                            write(fd, s.buf.get() as *const u8, n);
+                            write(fd, b"\n".as_ptr(), 1);
+                        }
+                        _exit(CRASH_EXIT);
+                    }
+                }
+            }
+        }
+    });
 }
 static FD: AtomicI32 = AtomicI32::new(-1);
 
@@ -26,6 +84,19 @@ pub fn set_inflight(s: &str) {
         let n = s.len().min(BUF);
         buf[..n].copy_from_slice(&s.as_bytes()[..n]);
         *len = n;
+    });
+    let _ = SLOT.try_with(|sl| {
+        if sl.get() == usize::MAX {
+            sl.set(NEXT_SLOT.fetch_add(1, Ordering::Relaxed));
+        }
+        if sl.get() < NSLOTS {
+            let slot = &SLOTS[sl.get()];
+            let n = s.len().min(SBUF);
+            unsafe { std::ptr::copy_nonoverlapping(s.as_ptr(), slot.buf.get() as *mut u8, n) };
+            slot.len.store(n, Ordering::Relaxed);
+            slot.stamp_ms.store(now_ms(), Ordering::Relaxed);
+            slot.busy.store(true, Ordering::Relaxed);
+        }
     });
 }
 
